@@ -142,13 +142,24 @@ theorem getitem_covariances (r : RVs α) (h : WF r) (ind : List String) (a b : S
     getCov (getitem r ind) a b = getCov r a b :=
   getitem_cov' h.nodup (singles_of_square h.square) ind ha hb hai hbi
 
-/-- `join(inds, fill)`: between joined variables an existing non-zero (co)variance is kept, a zero
-    one (new, or previously 0) becomes `fill` when `fill ≠ 0` — **including a zero variance**. -/
+/-- `join(inds, fill)`: for joined variables every variance is kept, and a covariance `v` (0 when
+    the variables were in different blocks) becomes `if fill ≠ 0 ∧ v = 0 then fill else v` — the exact
+    value of every entry of the joined block. -/
 theorem join_keeps_existing_cov (r : RVs α) (h : WF r) (inds : List String) (fill : α)
     (res : JoinResult α) (hj : join r inds (.value fill) = .ok res) (a b : String)
     (ha : a ∈ names r) (hb : b ∈ names r) (hai : a ∈ inds) (hbi : b ∈ inds) :
-    ∃ v, getCov r a b = .ok v ∧ getCov res.rvs a b = .ok (if fill ≠ 0 ∧ v = 0 then fill else v) :=
+    ∃ v, getCov r a b = .ok v ∧
+      getCov res.rvs a b = .ok (if a ≠ b ∧ fill ≠ 0 ∧ v = 0 then fill else v) :=
   join_cov_inside_value' h.nodup h.square hj ha hb hai hbi
+
+/-- `join(inds, fill)` preserves every variance — also a zero variance, whatever `fill` is. -/
+theorem join_variances (r : RVs α) (h : WF r) (inds : List String) (fill : α)
+    (res : JoinResult α) (hj : join r inds (.value fill) = .ok res) (a : String) (ha : a ∈ names r) :
+    getCov res.rvs a a = getCov r a a := by
+  by_cases hai : a ∈ inds
+  · obtain ⟨v, h1, h2⟩ := join_cov_inside_value' h.nodup h.square hj ha ha hai hai
+    rw [h1, h2]; simp
+  · exact join_cov_outside' h.nodup (singles_of_square h.square) hj ha ha hai hai
 
 /-- `join(inds, name_template=…)`: an existing non-zero (co)variance between joined variables is
     kept (blocks symmetric); zero entries below the diagonal get a new symbol in both triangles. -/
@@ -178,13 +189,14 @@ theorem join_covariances_cross (r : RVs α) (h : WF r) (inds : List String) (f :
     getCov res.rvs a b = .ok 0 ∧ getCov res.rvs b a = .ok 0 :=
   join_cov_cross' h.nodup (singles_of_square h.square) hj ha hb hai hbi
 
-/-- The statement "every variance is preserved" is false of `join(fill)`: a zero variance is
-    overwritten by `fill`. -/
-theorem join_fill_zero_variance_witness :
-    (getCov [normal "a" "IIV" (.num 0) (.sym "A"), normal "b" "IIV" (.num 0) (.num 0)] "b" "b").toOption
-      = some (Entry.num 0) ∧
+/-- The former witness of the defect, now about the repaired behaviour: a zero variance survives
+    `join(fill)` while the new covariance is `fill`. -/
+theorem join_fill_keeps_zero_variance_example :
     ((join [normal "a" "IIV" (.num 0) (.sym "A"), normal "b" "IIV" (.num 0) (.num 0)] ["a", "b"]
         (.value (Entry.sym "F"))).toOption.bind (fun res => (getCov res.rvs "b" "b").toOption))
+      = some (Entry.num 0) ∧
+    ((join [normal "a" "IIV" (.num 0) (.sym "A"), normal "b" "IIV" (.num 0) (.num 0)] ["a", "b"]
+        (.value (Entry.sym "F"))).toOption.bind (fun res => (getCov res.rvs "a" "b").toOption))
       = some (Entry.sym "F") := by
   decide
 
